@@ -8,13 +8,27 @@ import storeprop  # noqa: E402
 ID = "C02"
 THEOREMS = ["c02_reopen_same_walk", "c02_walk_determined", "c02_last_write_wins", "c02_attr_frame",
             "c02_deleted_stays_deleted", "c02_link_frame"]
-PROFILE = {"weights": {"reopen": 2.0, "set_attr": 6, "set_link": 4, "remove": 3, "delete": 2, "lookup": 4,
+# two handles to one owner, both having used the same link list; the list is emptied through one and
+# filled again through the other (a cached backend of a dropped container group must not swallow it)
+PRELUDES = [
+    [["create", 0, "CBlocks", "B", "t", []], ["create", 1, "CDataArrays", "a", "t", [1, 2]], ["create", 1, "CGroups", "g", "t", []],
+     ["lookup", 1, "CGroups", ["name", "g"]], ["append", 3, "LDataArrays", 2], ["probe_link", 4, "LDataArrays"],
+     ["remove", 3, "LDataArrays", ["pos", 0]], ["append", 4, "LDataArrays", 2], ["reopen", False]],
+    [["create", 0, "CBlocks", "B", "t", []], ["create", 1, "CDataArrays", "a", "t", [1, 2]], ["create", 1, "CTags", "t", "t", [1]],
+     ["lookup", 1, "CTags", ["pos", 0]], ["append", 4, "LReferences", 2], ["probe_link", 3, "LReferences"],
+     ["remove", 4, "LReferences", ["pos", 0]], ["append", 3, "LReferences", 2], ["reopen", False]],
+    [["create", 0, "CBlocks", "B", "t", []], ["create", 1, "CSources", "s", "t", []], ["create", 1, "CDataArrays", "a", "t", [1]],
+     ["lookup", 1, "CDataArrays", ["name", "a"]], ["append", 3, "LSources", 2], ["probe_link", 4, "LSources"],
+     ["remove", 3, "LSources", ["pos", 0]], ["append", 4, "LSources", 2], ["set_attr", 4, "ALabel", "l"], ["reopen", False]],
+]
+PROFILE = {"preludes": PRELUDES, "prelude_prob": 0.25, "weights": {"reopen": 2.0, "set_attr": 6, "set_link": 4, "remove": 3, "delete": 2, "lookup": 4,
                        "lookup_link": 3, "probe_link": 1.5, "probe": 1, "bad": 0.5}}
 RULE = ("random histories over all modelled entity kinds (blocks, groups, arrays, tags, multi-tags, features, nested sources and "
         "sections, properties) with attribute values incl. None, empty and non-ASCII strings, links and unlinks, deletions, and a "
         "close+reopen (read-write) inserted at random points; every operation goes through a randomly chosen one of all Python "
         "objects obtained so far for the entity (creation result, container lookups, link-list lookups); the canonical walk is "
-        "taken through fresh objects after every operation.")
+        "taken through fresh objects after every operation. A quarter of the histories start with a two-handle prelude (a link list "
+        "emptied through one object and refilled through another that had cached it).")
 
 
 def predicate(h):
